@@ -25,6 +25,7 @@ import CelloProofs.Lemmas.TextRoundE32
 import CelloProofs.Lemmas.TextSeq
 import CelloProofs.Lemmas.TextFmt
 import CelloProofs.Lemmas.TextBridge
+import CelloProofs.Lemmas.TextScan
 
 namespace Cello.Text
 
@@ -646,5 +647,166 @@ example : scanIntSpec srcCfg .l .i [49, 50, 51, 52] = .ok (1234, []) := by decid
 
 /-- out of contract on purpose: `0` followed by `x` is taken for a hexadecimal prefix -/
 example : scanIntSpec srcCfg .l .i ([48] ++ [120, 44]) = .ok (0, [44]) := by decide
+
+/-! ## extension round: the branches of scan_from_with, show_to / look_from, the formats of Num.c and the character path as
+     extracted data (CelloGen/TextScan.lean, model Cello/TextScan.lean) -/
+
+/-- **What the translator extracts about the scanners is what the byte-level model assumes, decided on the extracted data**
+    (`srcLike`): the `%$` branch of `scan_from_with` ASSIGNS what `look_from` returns (an absolute position — `pos = look_from(…)`, not
+    `pos += …`), the integer and the floating branch ADD the `%n` count, the literal branch READS the run from the input
+    (`format_from(input, pos, fmt_buf)`: a File moves only by being read) and adds its length; `print_to_with` assigns what `show_to`
+    returns; `<type> tmp` of the `%c` branch and `<type>* v` of String_Show are (signed) 8-bit objects; the four formats of src/Num.c
+    are cut by the two scanners into ONE specification each — `%li` for Int_Show and Int_Look, `%f` for Float_Show, `%lf` for
+    Float_Look —; the delimiters and case labels of String_Show / String_Look are ASCII, and the texts String_Show writes are bytes.
+    A change of any of these (seeds c15_d / c15_k: `off = look_from(…)`; c15_f / c15_j: the literal is not read) makes this fail. -/
+theorem C15_scan_branches : srcLike srcX = true ∧ showTextsOK srcCfg = true := by
+  constructor <;> decide
+
+/-- **The character path (full byte range).**  A byte of a String is a C `char`, signed on x86-64.  String_Look sees it as
+    `c_int(chr)` after the `%c` branch of scan_from_with stored it into `<scanCharTy> tmp` and handed on `$I(tmp)` — for a byte
+    ≥ 128 the negative number `b − 256` — compares that `int` with the delimiters and case labels and stores `(char)c_int(chr)`;
+    String_Show switches on `*v` and prints `$I(*v)` with `%c`.  With the types extracted from the source this typed reader and
+    writer agree with the byte-level ones on every input made of bytes, and the conversions restore every byte. -/
+theorem C15_char_path (l : List Nat) (hl : ∀ b ∈ l, b < 256) (pos : Nat) (b : Nat) (hb : b < 256) :
+    lookStringC srcX.chrTy srcCfg.look l pos = lookString srcCfg.look l pos ∧
+    showByteC srcX.showTy srcCfg.showEsc b = showByte srcCfg.showEsc b ∧
+    byteOf (cObjVal srcX.chrTy b) = b ∧ (128 ≤ b → cObjVal srcX.chrTy b = (b : Int) - 256) := by
+  have S := srcLike_of_ok srcX C15_scan_branches.1
+  have e1 : srcX.chrTy = (true, 8) := S.chrTy
+  have e2 : srcX.showTy = (true, 8) := S.showTy
+  rw [e1, e2]
+  refine ⟨lookStringC_eq _ S.opn S.cls S.escb S.lookKeys l hl pos, showByteC_eq _ S.showKeys b hb, byteOf_cObjVal b hb, ?_⟩
+  intro h; rw [cObjVal_s8 b hb]; split <;> omega
+
+/-- **C15 for String on the typed character path**: for every NUL-free byte string (all 255 byte values), every following bytes and
+    every position counter, the `char`-typed String_Look reads back from what the `char`-typed String_Show wrote exactly the string,
+    leaves exactly the rest and advances by exactly the characters written. -/
+theorem C15_string_roundtrip_chars (s : List Nat) (hs : ∀ b ∈ s, b ≠ 0 ∧ b < 256) (rest : List Nat) (hr : ∀ b ∈ rest, b < 256) (pos : Nat) :
+    let shown := srcCfg.showOpen ++ s.flatMap (showByteC srcX.showTy srcCfg.showEsc) ++ srcCfg.showClose
+    lookStringC srcX.chrTy srcCfg.look (shown ++ rest) pos = (s, .ok (rest, pos + shown.length)) := by
+  intro shown
+  have S := srcLike_of_ok srcX C15_scan_branches.1
+  have hsb : Bytes s := fun b hb => (hs b hb).2
+  have e : shown = showString srcCfg.showEsc srcCfg.showOpen srcCfg.showClose s := by
+    have h := showString_C srcCfg.showEsc S.showKeys srcCfg.showOpen srcCfg.showClose s hsb
+    have e2 : srcX.showTy = (true, 8) := S.showTy
+    show srcCfg.showOpen ++ s.flatMap (showByteC srcX.showTy srcCfg.showEsc) ++ srcCfg.showClose = _
+    rw [e2]; exact h
+  have hT := C15_scan_branches.2
+  simp only [showTextsOK, Bool.and_eq_true, List.all_eq_true, decide_eq_true_eq] at hT
+  have hshown : Bytes shown := e ▸ showString_bytes _ (fun p hp => hT.1.1 p hp) _ _ _ hT.1.2 hT.2 hsb
+  rw [(C15_char_path (shown ++ rest) (bytes_append hshown hr) pos 0 (by omega)).1, e]
+  exact C15_string_roundtrip s (fun b hb => (hs b hb).1) rest pos
+
+/-- **C15 for sequences on the model parametrised by the extracted branches** (`printItemsX` / `scanItemsX` at `srcX`: what the driver
+    runs).  `%$` goes through `show_to` / `look_from` → the Show instance → for Int and Float ONE print_to / scan_from with the format
+    of Num.c, cut by the scanners; the position the callee returns is placed as the extracted rule says; literals read the input
+    iff the source does.  For every sequence inside the contract whose Strings and separators are bytes, after any bytes `pre`,
+    followed by any bytes `z`: the writer appends exactly the items' texts and returns start + length; the reader stores `readBack`
+    and returns the same position, and a File's stream has moved by exactly the characters written. -/
+theorem C15_sequence_roundtrip_source (k : Kind) (pre : List Nat) (its : List Item) (z : List Nat)
+    (hc : contractOK srcCfg k its z = true) (hpre : ∀ b ∈ pre, b < 256) (hz : ∀ b ∈ z, b < 256) (hown : ∀ it ∈ its, it.ownBytes) :
+    let text := its.flatMap (Item.text srcCfg)
+    let inp : Input := { kind := k, text := pre ++ text ++ z, cur := pre.length }
+    printItemsX srcX { kind := k, data := pre } pre.length its = some ({ kind := k, data := pre ++ text }, pre.length + text.length) ∧
+    scanItemsX srcX inp pre.length (its.map Item.shape)
+      = (its.filterMap (Item.readBack srcCfg), .ok (inp.adv text.length, pre.length + text.length)) := by
+  intro text inp
+  have S := srcLike_of_ok srcX C15_scan_branches.1
+  have h := C15_sequence_roundtrip k pre its z hc
+  have hv := contract_valid srcCfg k its z hc
+  have hb : Bytes inp.text := bytes_append (bytes_append hpre (items_text_bytes srcCfg C15_scan_branches.2 its hown)) hz
+  constructor
+  · rw [printItemsX_eq srcX S its (fun it hit => ⟨hv it hit, ownBytes_strBytes it (hown it hit)⟩)]
+    exact congrArg some h.1
+  · rw [scanItemsX_eq srcX S _ inp hb]
+    exact h.2
+
+/-- … and the same for values written and read by calls of their own — `show_to(v, out, pos)` / `look_from(v, input, pos)` called
+    directly, separators by their own print_to_with / scan_from_with (`printItemsD` / `scanItemsD`: no `%$` branch; the position
+    the Show instance returns is the result) -/
+theorem C15_sequence_roundtrip_direct (k : Kind) (pre : List Nat) (its : List Item) (z : List Nat)
+    (hc : contractOK srcCfg k its z = true) (hpre : ∀ b ∈ pre, b < 256) (hz : ∀ b ∈ z, b < 256) (hown : ∀ it ∈ its, it.ownBytes) :
+    let text := its.flatMap (Item.text srcCfg)
+    let inp : Input := { kind := k, text := pre ++ text ++ z, cur := pre.length }
+    printItemsD srcX { kind := k, data := pre } pre.length its = some ({ kind := k, data := pre ++ text }, pre.length + text.length) ∧
+    scanItemsD srcX inp pre.length (its.map Item.shape)
+      = (its.filterMap (Item.readBack srcCfg), .ok (inp.adv text.length, pre.length + text.length)) := by
+  intro text inp
+  have S := srcLike_of_ok srcX C15_scan_branches.1
+  have h := C15_sequence_roundtrip k pre its z hc
+  have hv := contract_valid srcCfg k its z hc
+  have hb : Bytes inp.text := bytes_append (bytes_append hpre (items_text_bytes srcCfg C15_scan_branches.2 its hown)) hz
+  constructor
+  · rw [printItemsD_eq srcX S its (fun it hit => ⟨hv it hit, ownBytes_strBytes it (hown it hit)⟩)]
+    exact congrArg some h.1
+  · rw [scanItemsD_eq srcX S _ inp hb]
+    exact h.2
+
+/-- a direct `look_from` is not touched by the `%$` rule: with the adding branch `look_from(x, "x7", 1)` still returns 2 -/
+example :
+    scanItemsD { srcX with dollar := .addCall "look_from" } { kind := .str, text := [120, 55], cur := 0 } 1 [.int]
+      = ([.int 7], .ok ({ kind := .str, text := [120, 55], cur := 0 }, 2)) := by decide
+
+/-- **The `%$` branch ADDING what look_from returns (class of seeds c15_d / c15_k) is refuted.**  `look_from` returns the new absolute
+    position; with `off = look_from(…); pos += off` a `%$` reached at position 1 of `x7` returns 3 instead of 2; `7,8,9` read as
+    `%$,%$,%$` from a String gets 7 and 8, arrives at position 5 + 1 beyond the terminator (undefined); from a File the values are read
+    (the stream decides) but the position returned for `7,8` is 5, not 3. -/
+theorem C15_dollar_adds_refuted :
+    let x : XCfg := { srcX with dollar := .addCall "look_from" }
+    scanItemsX x { kind := .str, text := [120, 55], cur := 0 } 1 [.int]
+      = ([.int 7], .ok ({ kind := .str, text := [120, 55], cur := 0 }, 3)) ∧
+    scanItemsX x { kind := .str, text := [55, 44, 56, 44, 57], cur := 0 } 0 [.int, .lit [44], .int, .lit [44], .int]
+      = ([.int 7, .int 8, .int 77], .ub) ∧
+    scanItemsX x { kind := .file, text := [55, 44, 56], cur := 0 } 0 [.int, .lit [44], .int]
+      = ([.int 7, .int 8], .ok ({ kind := .file, text := [55, 44, 56], cur := 3 }, 5)) := by
+  refine ⟨by decide, by decide, by decide⟩
+
+/-- **The literal branch NOT reading the input (class of seeds c15_f / c15_j) is refuted** for a File: `7,8` read as `%$,%$` gets 7, the
+    stream still stands before the comma, and the second `%li` fails (FormatError); from a String (position is the only cursor) nothing changes. -/
+theorem C15_literal_unread_refuted :
+    let x : XCfg := { srcX with litReads := false }
+    scanItemsX x { kind := .file, text := [55, 44, 56], cur := 0 } 0 [.int, .lit [44], .int]
+      = ([.int 7, .int 77], .raised .FormatError) ∧
+    scanItemsX x { kind := .str, text := [55, 44, 56], cur := 0 } 0 [.int, .lit [44], .int]
+      = ([.int 7, .int 8], .ok ({ kind := .str, text := [55, 44, 56], cur := 0 }, 3)) := by
+  refine ⟨by decide, by decide⟩
+
+/-- the same inputs with the branches as they are now -/
+example :
+    scanItemsX srcX { kind := .str, text := [120, 55], cur := 0 } 1 [.int]
+      = ([.int 7], .ok ({ kind := .str, text := [120, 55], cur := 0 }, 2)) ∧
+    scanItemsX srcX { kind := .file, text := [55, 44, 56], cur := 0 } 0 [.int, .lit [44], .int]
+      = ([.int 7, .int 8], .ok ({ kind := .file, text := [55, 44, 56], cur := 3 }, 3)) := by
+  refine ⟨by decide, by decide⟩
+
+/-- the byte hypotheses of `C15_sequence_roundtrip_source` are met by a sequence with high bytes -/
+example :
+    let its : List Item := [.shw (.str [10, 34, 92, 255, 128]), .lit [44, 32], .li (-42), .lit [32], .shw (.int 0)]
+    (∀ it ∈ its, it.ownBytes) ∧ (∀ b ∈ [34, 7, 255], b < 256) := by
+  refine ⟨?_, by decide⟩
+  intro it hit
+  simp only [List.mem_cons, List.not_mem_nil, or_false] at hit
+  rcases hit with rfl | rfl | rfl | rfl | rfl <;> simp [Item.ownBytes, Bytes]
+
+
+/-- `show_to` / `look_from` dispatch to the Show instance with `out` / `input` and `pos` passed through and its result returned
+    unchanged; `print_to` / `scan_from` are `print_to_with` / `scan_from_with` on a Tuple of the arguments; nothing stands between
+    the dispatch of scan_from_with and `fmt++; continue;`; `%c` of print_to_with hands `c_int(a)` to printf; String_Look stores through
+    a `(char)` cast into a `char` buffer (texts pinned; the types as data) -/
+theorem C15_show_look_dispatch :
+    CelloGen.TextScan.showToBody = CelloGen.TextScan.showToBodyModelled ∧
+    CelloGen.TextScan.lookFromBody = CelloGen.TextScan.lookFromBodyModelled ∧
+    CelloGen.TextScan.printToMacro = CelloGen.TextScan.printToMacroModelled ∧
+    CelloGen.TextScan.scanFromMacro = CelloGen.TextScan.scanFromMacroModelled ∧
+    CelloGen.TextScan.scanSpecHoisted = "" ∧ CelloGen.TextScan.printCharArg = "c_int(a)" ∧
+    CelloGen.TextScan.lookStoreCast = (true, 8) ∧ CelloGen.TextScan.lookBufferTy = (true, 8) := by
+  refine ⟨rfl, rfl, rfl, rfl, rfl, rfl, rfl, rfl⟩
+
+/-- of all the `Instance(Show, …)` of the library exactly Int, Float and String have a reader (`look`): the three types the
+    property speaks about; every container, Box, Type, Range, Slice, Exception and GC can be shown but not read back -/
+theorem C15_look_instances :
+    CelloGen.TextScan.showInstances.filter (fun p => p.2 != "NULL")
+      = [("Int_Show", "Int_Look"), ("Float_Show", "Float_Look"), ("String_Show", "String_Look")] := by decide
 
 end Cello.Text
